@@ -191,6 +191,9 @@ def numeric_value(d) -> Optional[float]:
             return None
         name = a[:a.index("(")]
         arg = _FUNC_ARG[a]
+        if name == "atan2" and len(_FUNC_ARGS.get(a, ())) == 2:
+            y_, x_ = (val(t) for t in _FUNC_ARGS[a])
+            return None if y_ is None or x_ is None else math.atan2(y_, x_)
         if name not in fn:
             return None
         av = val(arg)
@@ -1081,6 +1084,17 @@ class STensor:
     def _fn(self, name):
         return STensor.from_flat([sfunc(name, x) for x in self.flat()], self.shape, FLOAT)
 
+    def sign(self):
+        out = []
+        for x in self.flat():
+            sg = FACTS.sign(to_rat(x))
+            if sg is None:
+                sg = _numeric_sign(to_rat(x)) if not to_rat(x).is_zero() else 0
+            if sg is None:
+                raise Unsupported(f"sign of {x} undecided")
+            out.append(Rat.of(sg))
+        return STensor.from_flat(out, self.shape, self.dtype)
+
     def cos(self): return self._fn("cos")
     def sin(self): return self._fn("sin")
     def tan(self): return self._fn("tan")
@@ -1507,6 +1521,7 @@ def sfunc(name: str, x, *more) -> Rat:
     if key not in _FUNC_ATOMS:
         _FUNC_ATOMS[key] = Rat.atom(key)
         _FUNC_ARG[key] = x
+        _FUNC_ARGS[key] = list(args)
         if name == "sqrt":
             from .ring import declare_square
             if x.den.is_const():
@@ -1520,6 +1535,7 @@ def sfunc(name: str, x, *more) -> Rat:
 
 
 _FUNC_ARG: Dict[str, Rat] = {}
+_FUNC_ARGS: Dict[str, List[Rat]] = {}
 
 
 def _monomial_sqrt(x: Rat) -> Optional[Rat]:
@@ -1551,6 +1567,7 @@ def _monomial_sqrt(x: Rat) -> Optional[Rat]:
 def _reset_caches() -> None:
     _FUNC_ATOMS.clear()
     _FUNC_ARG.clear()
+    _FUNC_ARGS.clear()
     TRIG_ATOMS.clear()
 
 
@@ -1604,18 +1621,18 @@ def as_tensor(data, dtype=None, device=None) -> STensor:
     return tensor(data, dtype=dtype)
 
 
-def zeros(*shape, dtype=None, device=None, **k) -> STensor:
-    shape = _shape_args(shape)
+def zeros(*shape, dtype=None, device=None, size=None, **k) -> STensor:
+    shape = _shape_args(shape if size is None else (size,))
     return STensor.from_flat([0] * _numel(shape), shape, dtype if isinstance(dtype, DType) else FLOAT)
 
 
-def ones(*shape, dtype=None, device=None, **k) -> STensor:
-    shape = _shape_args(shape)
+def ones(*shape, dtype=None, device=None, size=None, **k) -> STensor:
+    shape = _shape_args(shape if size is None else (size,))
     return STensor.from_flat([1] * _numel(shape), shape, dtype if isinstance(dtype, DType) else FLOAT)
 
 
-def empty(*shape, dtype=None, device=None, **k) -> STensor:
-    shape = _shape_args(shape)
+def empty(*shape, dtype=None, device=None, size=None, **k) -> STensor:
+    shape = _shape_args(shape if size is None else (size,))
     return STensor.from_flat([Rat.atom(f"uninit{i}") for i in range(_numel(shape))], shape,
                              dtype if isinstance(dtype, DType) else FLOAT)
 
